@@ -39,6 +39,13 @@ def splitLoop (F : Nat) (p : Pkt) (g m x : Nat) : Nat → Nat → Nat → Bytes 
       mkFrag p g m i (rest.take F) :: splitLoop F p g m x fuel (i + 1) (t + (rest.take F).length) (rest.drop F)
     else []
 
+/-- `Session.write`, fragment path, first step: a packet without a Job number gets one (`j`, drawn
+at random from 2..65534) unless it is a proxied or a system packet — every fragment must carry the
+same Job number to be put back together (`Belongs`), and `verifyPacket` would otherwise draw a
+different one per fragment. -/
+def withJob (p : Pkt) (j : Nat) : Pkt :=
+  if p.job = 0 ∧ p.flags &&& Facts.flagProxy = 0 ∧ p.id.toNat > 1 then { p with job := j } else p
+
 /-- `Session.write` for a packet larger than `F`: the fragments queued, in order. -/
 def split (F : Nat) (p : Pkt) (g : Nat) : List Pkt :=
   let x := Packet.size p
